@@ -2,6 +2,8 @@ package props
 
 import (
 	"bytes"
+	"encoding/json"
+	"io"
 
 	"errors"
 	"fmt"
@@ -34,6 +36,19 @@ func init() {
 		Real: []string{"JSON and console encoders (getJSONEncoder/putJSONEncoder, clone, reflection buffer, slice encoder)", "buffer pool, CheckedEntry pool, error-array element pools, stack pool (internal/stacktrace)", "ioCore.Write buffer ownership, Logger.check"},
 		Stub: []string{"sync.Pool (simsync.Pool: fresh for the reference, then LIFO/FIFO/random with poison, fingerprints and drop events)", "sinks", "clock (fixed)"},
 	})
+}
+
+// c8reflEncoder: reflected-value encoders built by one factory and differing
+// only in captured state (as an application parameterising indentation or
+// redaction per logger would).
+//
+//go:noinline
+func c8reflEncoder(indent string) func(io.Writer) zapcore.ReflectedEncoder {
+	return func(w io.Writer) zapcore.ReflectedEncoder {
+		enc := json.NewEncoder(w)
+		enc.SetIndent("", indent)
+		return enc
+	}
 }
 
 type c8failing struct{ k int }
@@ -193,12 +208,18 @@ func runC08(c *Ctx) {
 	encCfgT.StacktraceKey = "stack"
 	encCfgT.FunctionKey = "fn"
 	console := g.Chance(3)
-	mkEnc := func(con bool) zapcore.Encoder {
-		if con {
-			return zapcore.NewConsoleEncoder(encCfgT)
+	customRefl := g.Chance(3)
+	mkEncI := func(con bool, indent string) zapcore.Encoder {
+		cfg := encCfgT
+		if customRefl {
+			cfg.NewReflectedEncoder = c8reflEncoder(indent)
 		}
-		return zapcore.NewJSONEncoder(encCfgT)
+		if con {
+			return zapcore.NewConsoleEncoder(cfg)
+		}
+		return zapcore.NewJSONEncoder(cfg)
 	}
+	mkEnc := func(con bool) zapcore.Encoder { return mkEncI(con, "") }
 	w.probeSk = zsim.NewSimSink(r, "probe", 1+g.Draw(2), 11)
 	r.Label(unsafe.Pointer(w.probeSk), "probe")
 	w.recipe = g.Draw(9)
@@ -229,7 +250,7 @@ func runC08(c *Ctx) {
 		if i == 1 {
 			opts = append(opts, zap.AddCaller())
 		}
-		w.others = append(w.others, zap.New(zapcore.NewCore(mkEnc(i == 2), zapcore.Lock(s), zapcore.DebugLevel), opts...))
+		w.others = append(w.others, zap.New(zapcore.NewCore(mkEncI(i == 2, []string{" ", "\t", "  "}[i]), zapcore.Lock(s), zapcore.DebugLevel), opts...))
 	}
 	// after the reference call the pools switch to a reusing policy
 	policy := pick(g, simsync.PoolLIFO, simsync.PoolLIFO, simsync.PoolFIFO, simsync.PoolRandom)
